@@ -192,7 +192,7 @@ class Engine:
     elif not c:
       raise Abort()
 
-  def decide(self, e):
+  def decide(self, e, val=None):
     """Concrete truth of symbolic bool e on this path; schedules the other side if feasible."""
     self.check_poison()
     e = z3.simplify(e)
@@ -202,11 +202,11 @@ class Engine:
     if self.ndec > self.max_decisions:
       raise PathBudget("decision budget")
     if self.pos < len(self.prefix):
-      d, forced, h = self.prefix[self.pos]
-      if h != _site():
+      d, forced, h, pv = self.prefix[self.pos]
+      if h != _site() or pv != val:
         raise Inconclusive("nondeterministic re-execution (decision %d)" % self.pos)
       self.pos += 1
-      self.decisions.append((d, forced, h))
+      self.decisions.append((d, forced, h, pv))
     else:
       m = self._model
       if m is None:
@@ -218,13 +218,13 @@ class Engine:
       h = _site()
       if other_ok:
         d = True
-        self.pending.append(self.decisions + [(False, False, h)])
-        self.decisions.append((True, False, h))
+        self.pending.append(self.decisions + [(False, False, h, val)])
+        self.decisions.append((True, False, h, val))
         self.path_forks += 1
         if not side: self._model = other_model
       else:
         d = side
-        self.decisions.append((d, True, h))
+        self.decisions.append((d, True, h, val))
       self.pos += 1
     # no per-path cache keyed on term identity: AST ids (and the simplifier's argument order) differ between worker
     # processes, and a replayed prefix must see exactly the same sequence of decide() calls
@@ -550,9 +550,13 @@ class SymInt:
     eng.concretisations += 1
     n = 0
     while True:
-      if not eng.check(): raise Abort()
-      v = _val(eng.solver.model().eval(self.e, model_completion=True))
-      if eng.decide(self.e == v): return v
+      # a replayed prefix must concretise to the same values the recording run chose (models are not reproducible)
+      if eng.pos < len(eng.prefix) and eng.prefix[eng.pos][3] is not None:
+        v = eng.prefix[eng.pos][3]
+      else:
+        if not eng.check(): raise Abort()
+        v = _val(eng.solver.model().eval(self.e, model_completion=True))
+      if eng.decide(self.e == v, val=v): return v
       n += 1
       if n > eng.conc_cap:
         raise Inconclusive("concretisation of a symbolic integer enumerated more than %d values" % eng.conc_cap)
